@@ -92,6 +92,14 @@ class C16(Prop):
                 c['stream'] += ':late-signal-start'
             c['session'] = True
             out.append(c)
+        # sessions in which some assets have no price yet on the first days (their files begin later): every priced asset is
+        # still observed once per close, whatever the others have
+        for _ in range(25 if tier == 'quick' else 300):
+            c = sl.gen_session(rng, tier, alpha_kinds=('topn', 'smatrend'), allow_dynamic=True, all_quoted=False)
+            c['_worker'] = 'sessworker'
+            c['session'] = True
+            c['stream'] += ':late-data'
+            out.append(c)
         return out
 
     def model_case(self, c):
@@ -108,13 +116,16 @@ class C16(Prop):
             return j
         cfg = c['cfg']
         closes = [t for t, k in sl.event_times(cfg['start'], cfg['end']) if k == 'market_close']
+        cut = None
         if o['error'] is not None:
-            closes = [t for t in closes if t < o['error'][1]]
+            cut = o['error'][1]
+            closes = [t for t in closes if cut is None or t < cut]
         rows = dict((t, dict(sn)) for t, sn in c['market']['rows'])
         u = cfg['universe']
         entry = dict((a, cfg['start']) for a in u[1]) if u[0] == 'static' else dict((a, e) for a, e in u[1])
         for a, e in entry.items():
-            got = o['signal_obs'].get(a, [])
+            got = [x for x in o['signal_obs'].get(a, []) if cut is None or (x[0] is not None and x[0] < cut)]
+            got = [[x[0], (None if x[1] == 'nan' else x[1])] for x in got]
             if e is None:
                 want = []
             else:
